@@ -57,3 +57,15 @@ def lemma_time_shift(t1, t2, shift):
     c = Message(t1 + shift, wl.UnresolvedObject(1, None), False, 'a', ())
     d = Message(t2 + shift, wl.UnresolvedObject(1, None), False, 'b', ())
     check('a.timestamp == c.timestamp and b.timestamp == d.timestamp', 'shift_invariant')
+
+
+@specfn({'connection_id': 'str', 'message': MSG}, 'bool', opaque=True)
+def ghost_stop(connection_id, message):
+    """whether the controller asks for a pause at this message: selection agrees and the breakpoint matcher matches
+    (the verified clause of Controller.connection_got_new_message / ConnectionManager.message, named here for the sink interface)"""
+    from pyvc import ntrace
+    c = ntrace.REG['controller']
+    if c is None:
+        return False
+    conn = c.connection_list.open_connections.get(connection_id)
+    return (c.current_connection is None or c.current_connection is conn) and c.stop_matcher.matches(message)
